@@ -3,7 +3,7 @@
    Go code on every run by the correspondence of Raft/Wire.v.run_case with the real `core` objects. *)
 From Coq Require Import List NArith ZArith.
 From BLB Require Import Lib.LTS Raft.Core Raft.Wire Raft.NodeElect Raft.NodeMono Raft.NodeLeader Raft.NodeConf Raft.Election Raft.ElectionFixed Raft.ElectionExample Raft.Mechanisms C02.Proofs.
-From BLB Require Import Raft.LogMatchLists Raft.LogMatchNode Raft.LogMatch Raft.Completeness Raft.LogMatchExample Raft.SMSafetyNode Raft.SMSafety Raft.SMSafetyExample.
+From BLB Require Import Raft.LogMatchLists Raft.LogMatchNode Raft.LogMatch Raft.Completeness Raft.LogMatchExample Raft.SMSafetyNode Raft.SMSafety Raft.SMSafetyExample Raft.LeaderSuffix Raft.LeaderSuffixExample.
 Import ListNotations.
 Open Scope N_scope.
 
@@ -292,6 +292,54 @@ Theorem state_machine_safety_partial_nonvacuous :
     In x (n_commits a) /\ In x (n_commits b) /\ e_index x = 2 /\ e_term x = 2.
 Proof. exact Raft.SMSafetyExample.applied_entries_nonvacuous. Qed.
 Print Assumptions state_machine_safety_partial_nonvacuous.
+
+(* [FULL] leader_commits_own_suffix, the contract assumed by the leader loop of raft.go as modelled in C03 Layer.v under the name core_contract,
+   node level over Raft Core.v: start state s0 is a leader without snapshot whose log is index-contiguous and whose commit
+   index equals its last index, which is the moment the term's NOP has been applied; then any sequence of events Deliver of any
+   message, Tick, Propose of any batch, Bootstrap, each completed without crash and leaving the node leader of the same term.
+   With lp_prop the entries handed to core.Propose so far as stamped by the core and lp_comm the concatenation of what
+   TakeNewlyCommitted returned so far: after every further event, lp_comm followed by the newly returned entries is a prefix
+   of lp_prop including the batch proposed by that event. AddNode, RemoveNode, SnapshotDone and Restart are outside *)
+Theorem leader_commits_own_suffix :
+  forall s0 evs st1 ev st2,
+    loop_start s0 -> loop_run {| lp_node := s0; lp_prop := []; lp_comm := [] |} evs st1 -> loop_step st1 ev st2 ->
+    lp_comm st2 = lp_comm st1 ++ n_commits (lp_node st2) /\
+    lp_prop st2 = lp_prop st1 ++ proposed_by (lp_node st1) ev /\
+    Raft.LeaderSuffix.prefix (lp_comm st1 ++ n_commits (lp_node st2)) (lp_prop st2).
+Proof. exact Raft.LeaderSuffix.leader_commits_own_suffix_stepwise. Qed.
+Print Assumptions leader_commits_own_suffix.
+
+(* [FULL] leader_commits_own_suffix as a loop invariant with the exact lists: the node stays leader of the same term, lp_prop is the log
+   beyond the commit index of the loop start and lp_comm is the log segment between that commit index and the current one *)
+Theorem leader_commits_own_suffix_invariant :
+  forall s0 evs st,
+    loop_start s0 -> loop_run {| lp_node := s0; lp_prop := []; lp_comm := [] |} evs st ->
+    let c0 := n_commit s0 in
+    let s := lp_node st in
+    n_role s = Leader /\ p_term (n_p s) = p_term (n_p s0) /\ c0 <= n_commit s /\ n_commit s <= llen (n_p s) /\
+    lp_prop st = skipn (N.to_nat c0) (p_log (n_p s)) /\
+    lp_comm st = seg c0 (n_commit s) (p_log (n_p s)).
+Proof. exact Raft.LeaderSuffix.leader_loop_invariant. Qed.
+Print Assumptions leader_commits_own_suffix_invariant.
+
+(* [FULL] leader_commits_own_suffix in terms of the commands given to core.Propose: type and payload of the committed entries are in order a
+   prefix of type and payload of the proposed batches *)
+Theorem leader_commits_own_suffix_commands :
+  forall s0 evs st,
+    loop_start s0 -> loop_run {| lp_node := s0; lp_prop := []; lp_comm := [] |} evs st ->
+    Raft.LeaderSuffix.prefix (map cmd_of (lp_comm st)) (map cmd_of (batches evs)).
+Proof. exact Raft.LeaderSuffix.leader_commits_own_suffix_cmds. Qed.
+Print Assumptions leader_commits_own_suffix_commands.
+
+(* [FULL] non-vacuity of leader_commits_own_suffix: the leader of the two-node run, everything committed, proposes one command, ticks and receives
+   the acknowledgement of its follower; the committed list is the one-entry list equal to the proposed list *)
+Theorem leader_commits_own_suffix_nonvacuous :
+  exists s0 evs st,
+    loop_start s0 /\ loop_run {| lp_node := s0; lp_prop := []; lp_comm := [] |} evs st /\
+    lp_comm st = [{| e_term := 2; e_index := 3; e_type := EntryNormal; e_pl := [43%Z] |}] /\
+    lp_prop st = lp_comm st /\ length evs = 3%nat.
+Proof. exact Raft.LeaderSuffixExample.leader_suffix_nonvacuous. Qed.
+Print Assumptions leader_commits_own_suffix_nonvacuous.
 
 (* NOT YET PROVED (statements kept visible; listed in props/C02.json not_yet_proved):
    clause 3  leader_completeness : an entry, once committed, is in the log (or snapshot) of every later leader
